@@ -15,9 +15,20 @@ func Trigger(name string, p *Plan, r *RunResult) bool {
 		if cmd.Op != "BatchGet" {
 			return false
 		}
+		// ... handed back as unprocessed, and nothing else wrong with the answer
 		for _, s := range r.Steps {
 			if s.Cmd.ID == cmd.ID && !s.Twin {
-				return len(s.Out.UnprocKeys) > 0
+				n := 0
+				for _, f := range s.Fails {
+					if f.Rule != "C19.get" {
+						continue
+					}
+					if !strings.Contains(f.Msg, "none of which has a stored item") {
+						return false
+					}
+					n++
+				}
+				return n > 0
 			}
 		}
 	case "v1-batchget":
